@@ -598,9 +598,13 @@ def gen_selection(rng, suite, max_workers=3):
         tests_str = "only " + ",".join(f"leaves..{last(t)}" for t in picks) + "\n"
     elif r < 0.86:
         tests_str = f"only leaves\nonly {last(rng.choice(leaves))}\n"
-    elif r < 0.96:
+    elif r < 0.91:
         t = rng.choice(setups)
         tests_str = f"only nonleaves..{t['name'].split('.', 2)[2]}\n"
+    elif r < 0.96:
+        # several setup tests selected directly (a dependant and its producer are then both leaves of the selection)
+        picks = rng.sample(setups, min(len(setups), rng.choice([2, 3])))
+        tests_str = "only " + ",".join(f"nonleaves..{t['name'].split('.', 2)[2]}" for t in picks) + "\n"
     else:
         tests_str = "only all\nno noop\n"
     vm_strs = {}
